@@ -233,8 +233,50 @@ fn minmax_case(em: &mut Emit, rng: &mut Rng, vals: &[Value]) {
     em.case("(echo (bool true))", &law, "nt=1;kind=law-minmax", "min/max bound law");
 }
 
+/// long strings, byte strings and lists that agree up to (nearly) the end: the comparison has
+/// to look at every element, whatever chunking or length shortcut it uses
+fn long_values() -> Vec<Value> {
+    let mut v = Vec::new();
+    for &n in &[15usize, 16, 17, 31, 32, 33, 63, 64, 65, 255, 256, 257, 1024] {
+        let base: String = (0..n).map(|i| (b'a' + (i % 26) as u8) as char).collect();
+        let mut last = base.clone();
+        last.pop();
+        last.push('é');
+        let mut mid: Vec<char> = base.chars().collect();
+        mid[n / 2] = 'Z';
+        v.push(s(&base));
+        v.push(s(&last));
+        v.push(s(&mid.iter().collect::<String>()));
+        v.push(s(&base[..n - 1]));
+        v.push(Value::Bytes(Arc::new(base.as_bytes().to_vec())));
+        v.push(Value::Bytes(Arc::new(last.as_bytes().to_vec())));
+        let l: Vec<Value> = (0..n).map(|i| Value::Int(i as i64)).collect();
+        let mut l2 = l.clone();
+        l2[n - 1] = Value::UInt(n as u64 - 1);
+        let mut l3 = l.clone();
+        l3[n - 1] = Value::Int(-1);
+        v.push(list(l.clone()));
+        v.push(list(l2));
+        v.push(list(l3));
+        v.push(list(l[..n - 1].to_vec()));
+        v.push(map((0..n).map(|i| (Key::Int(i as i64), Value::Int(i as i64))).collect()));
+        v.push(map((0..n).map(|i| (Key::Uint(i as u64), Value::Int(if i + 1 == n { -1 } else { i as i64 }))).collect()));
+    }
+    v
+}
+
 pub fn run(em: &mut Emit, thorough: bool, seed: u64) {
     let vals = value_set();
+    let longs = long_values();
+    for (i, a) in longs.iter().enumerate() {
+        // within a length group (12 values each) and against the neighbouring group
+        let lo = (i / 12) * 12;
+        for b in longs[lo..(lo + 24).min(longs.len())].iter() {
+            direct_pair(em, a, b);
+            direct_pair(em, b, a);
+            prog_pair(em, a, b);
+        }
+    }
     for a in &vals {
         for b in &vals {
             direct_pair(em, a, b);
